@@ -292,15 +292,15 @@ func buildReplayOverlay(tmp, pkg, entry string) (string, error) {
 	pkgName := ""
 	i := 0
 	for path, src := range ov {
-		if !strings.HasPrefix(path, prefix) || strings.Contains(path[len(prefix):], string(filepath.Separator)) {
-			continue
-		}
 		real := filepath.Join(tmp, fmt.Sprintf("f%d_%s", i, filepath.Base(path)))
 		i++
 		if err := os.WriteFile(real, src, 0o644); err != nil {
 			return "", err
 		}
 		repl[path] = real
+		if !strings.HasPrefix(path, prefix) || strings.Contains(path[len(prefix):], string(filepath.Separator)) {
+			continue // harness file of another package (kept in the overlay: harnesses may import it)
+		}
 		for _, line := range strings.Split(string(src), "\n") {
 			if strings.HasPrefix(line, "package ") {
 				pkgName = strings.TrimSpace(strings.TrimPrefix(line, "package "))
